@@ -11,7 +11,7 @@ RULE = ("Hypothesis generates trash contents designed to lead a purge astray: pa
         "symlinks to files / directories OUTSIDE the trash (absolute, relative, dangling), trees "
         "with such links at depth 1-3, empty directories (also mode 000), info files that are symlinks, unusual info names "
         "('x.trashinfo.trashinfo', names with newlines, '.trashinfo'), orphans, and trash "
-        "directories reached through a symlink (XDG_DATA_HOME link, --trash-dir link); commands "
+        "directories reached through a symlink (XDG_DATA_HOME link, --trash-dir link, info/ itself a link to a directory elsewhere with a precious 'files' sibling); commands "
         "trash-empty, trash-empty DAYS, trash-rm PATTERN. Oracle: (1) frame - the lstat snapshot of "
         "everything not located under files/ or info/ of an operated trash dir (link targets, "
         "precious directories, the files/ and info/ directories themselves) is identical "
@@ -19,7 +19,7 @@ RULE = ("Hypothesis generates trash contents designed to lead a purge astray: pa
         "has its (parent-resolved) path inside files/ or info/ of a trash dir. Non-trivial: >= 1 "
         "payload symlink or inner symlink pointing outside; distinct by (command, link kinds, "
         "special names, trash-dir indirection).")
-ASSUMPTIONS = ["files/ and info/ themselves are real directories (not symlinks)"]
+ASSUMPTIONS = ["files/ is a real directory; info/ is a real directory or (indirection info_link) a symlink to one"]
 
 LINKS = ["abs_file", "abs_dir", "rel_file", "rel_dir", "dangling", "dir_slash", "root", "parent"]
 SPECIAL = ["none", "none", "none", "double_suffix", "newline", "dot_trashinfo", "info_symlink",
@@ -34,7 +34,7 @@ def examples(tier):
 def strategy_(draw, tier):
     tw = gen.draw_layout(draw)
     tds = gen.draw_tdirs(draw, tw)
-    indirection = draw(st.sampled_from(["none", "none", "xdg_link", "trash_dir_link"]))
+    indirection = draw(st.sampled_from(["none", "none", "xdg_link", "trash_dir_link", "info_link"]))
     ents = []
     for i in range(draw(st.integers(1, 6))):
         tdir, base = draw(st.sampled_from(tds))
@@ -84,6 +84,15 @@ def run_case(case):
         tw.nodes.append({"p": home + "/real xdg", "t": "d"})
         tw.nodes.append({"p": home + "/xdg-link", "t": "l", "to": "real xdg"})
         remap[real_home_trash] = home + "/real xdg/Trash"
+    INFO_ELSEWHERE = "/disk/trash-info"
+    if case["indirection"] == "info_link" and case["ents"]:
+        # info/ of the first entry's trash directory is a symlink to a directory elsewhere (a
+        # roomier disk); next to that directory lies a precious 'files' directory that must never
+        # be mistaken for the trash directory's files/
+        t0 = remap.get(case["ents"][0]["tdir"], case["ents"][0]["tdir"])
+        tw.nodes[0:0] = [{"p": INFO_ELSEWHERE, "t": "d", "m": 0o700},
+                         # (relative text: the builder works outside the chroot)
+                         {"p": t0 + "/info", "t": "l", "to": __import__("posixpath").relpath(INFO_ELSEWHERE, t0)}]
     special_seen, link_kinds = set(), set()
     made = []
     for i, e in enumerate(case["ents"]):
@@ -133,6 +142,8 @@ def run_case(case):
                                      "to": link_target(lk, tdir.count("/") + j + 2)})
                     link_kinds.add(lk)
         made.append((ip, pp, e["old"], orig))
+        if case["indirection"] == "info_link" and name not in ("", ".", ".."):
+            tw.nodes.append({"p": "/disk/files/" + name, "t": "f", "c": "precious, next to the info dir"})
     spec = tw.spec(cwd="/")
     sandbox.build_world(spec)
     before = sandbox.snapshot()
@@ -172,16 +183,18 @@ def run_case(case):
         res = runner_.run(spec, "trash-empty", fl + ["--trash-dir", arg])
     after = sandbox.snapshot()
     tags = dict(cmd=cmd, special="dot_trashinfo" if "dot_trashinfo" in special_seen else "other")
-    tdirs = [t for t in oracle.trash_dirs_in(before)]
+    tdirs = [t for t in oracle.trash_dirs_in(before) if t != "/disk"]   # (/disk/files is a decoy)
 
     def inside(p):
+        if case["indirection"] == "info_link" and p.startswith(INFO_ELSEWHERE + "/"):
+            return True     # (the physical place of that trash directory's info files)
         for t in tdirs:
             for sub in ("/files/", "/info/"):
                 if p.startswith(t.rstrip("/") + sub):
                     return True
         return False
 
-    own = {t.rstrip("/") + s for t in tdirs for s in ("/files", "/info")}
+    own = {t.rstrip("/") + s for t in tdirs for s in ("/files", "/info")} | {INFO_ELSEWHERE}
     for p, n in before.items():
         if inside(p):
             continue
